@@ -278,8 +278,10 @@ namespace nmtools::index
 
             for (nm_size_t i=0; i<(nm_size_t)n_planes; i++) {
                 if constexpr (meta::is_index_array_v<dilation_t>) {
-                    // assume same length as n_planes
-                    at(result,i) = at(dilation,i) - 1;
+                    // assume same length as n_planes;
+                    // spacing i is applied to window axis -(i+1) (see conv_window_axis),
+                    // while dilation follows the order of the spatial axes: (d_h, d_w)
+                    at(result,i) = at(dilation,(nm_size_t)n_planes-1-i) - 1;
                 } else {
                     at(result,i) = dilation - 1;
                 }
